@@ -83,7 +83,9 @@ var badIds = []V{AStr("not-a-uuid"), AStr("1234"), AStr("zzzzzzzz-zzzz-zzzz-zzzz
 
 var strPool = []string{"", "a", "ab", "abc", "b", "ba", "\x00", "a\x00", "a\x00b", "\xff", "a\xff", "\xff\x00", "é", "hello world", "Hello", "z",
 	// the byte pairs an escaping, self-delimiting key encoding has to get right
-	"\xff\x01", "a\xff\x01b", "\x00\x01", "\x00\xff\x01", "a\x00\x01"}
+	"\xff\x01", "a\xff\x01b", "\x00\x01", "\x00\xff\x01", "a\x00\x01",
+	// text that looks like a field reference is data when it is stored
+	"$x", "$", "$n.a"}
 
 type Gen struct {
 	r       *rand.Rand
@@ -596,6 +598,12 @@ func (g *Gen) query(total bool) []interface{} {
 		}
 		if g.chance(0.1) { // a later negative skip must be ignored
 			bs = append(bs, []interface{}{"skip", -2})
+		}
+		if g.chance(0.12) { // a later builder call replaces the earlier one: Skip(0) means no skip again
+			bs = append(bs, []interface{}{"skip", 0})
+		}
+		if g.chance(0.08) {
+			bs = append(bs, []interface{}{"limit", []int{-1, 2, 0}[g.r.Intn(3)]})
 		}
 	}
 	return bs
